@@ -17,11 +17,11 @@ import (
 // implementation's observations against plain association lists.  Keys are "k<n>", n >= 1.
 
 type m7op struct {
-	kind       string // put putempty putb bapp remove removeif ensurecap clear copy move markro
-	a, b, k    int
-	vk, v      int
-	bs         []byte
-	mask       []bool
+	kind    string // put putempty putb bapp remove removeif ensurecap clear copy move markro
+	a, b, k int
+	vk, v   int
+	bs      []byte
+	mask    []bool
 }
 
 type m7st struct {
